@@ -130,3 +130,27 @@ pub mod rawnode {
         rn.verif_view()
     }
 }
+
+/// Crate-private parts of a `Raft` node that the node-level correspondence (`rvh raftnode`)
+/// compares in addition to what the public API shows.  Read-only.
+pub mod node {
+    use crate::{Raft, Storage};
+
+    /// `mcs=<max_committed_size_per_ready> mi=<tracker max_inflight> in=<incoming voters, sorted>
+    /// out=<outgoing voters, sorted>`
+    pub fn view<T: Storage>(r: &Raft<T>) -> String {
+        let conf = r.prs().conf();
+        let mut incoming: Vec<u64> = conf.voters.incoming.iter().cloned().collect();
+        let mut outgoing: Vec<u64> = conf.voters.outgoing.iter().cloned().collect();
+        incoming.sort_unstable();
+        outgoing.sort_unstable();
+        let list = |v: &[u64]| v.iter().map(|x| x.to_string()).collect::<Vec<_>>().join(",");
+        format!(
+            "mcs={} mi={} in={} out={}",
+            r.max_committed_size_per_ready,
+            r.prs().max_inflight(),
+            list(&incoming),
+            list(&outgoing)
+        )
+    }
+}
